@@ -130,3 +130,22 @@ pub fn scratch_base() -> std::path::PathBuf {
         verif_root().join("out/scratch")
     }
 }
+
+/// Pinned witness inputs of recorded findings for a property: (finding id, file text).
+pub fn known_witnesses(prop: &str) -> Vec<(String, String)> {
+    let mut out = Vec::new();
+    let dir = verif_root().join("findings");
+    if let Ok(rd) = std::fs::read_dir(&dir) {
+        let mut ents: Vec<_> = rd.filter_map(|e| e.ok()).map(|e| e.path()).collect();
+        ents.sort();
+        for p in ents {
+            let name = p.file_stem().map(|s| s.to_string_lossy().to_string()).unwrap_or_default();
+            if name.starts_with(&format!("{}-", prop)) && p.is_file() {
+                if let Ok(t) = std::fs::read_to_string(&p) {
+                    out.push((name, t));
+                }
+            }
+        }
+    }
+    out
+}
